@@ -283,6 +283,7 @@ def run(tier, seed):
 
     # ---- S16.3 gRPC
     obligations.append(grpc_obligation(prog))
+    obligations.append(token_gate_obligation(prog))
     obligations.append(validate(prog, seed, 16 if tier == "quick" else 64))
     for ob in obligations:
         if ob.get("verdict") == "violation":
@@ -440,6 +441,105 @@ def grpc_obligation(prog):
             return _fin(ob, timer)
         ob.update({"verdict": "discharged", "distinct": len(data_types) + len(cluster_vals),
                    "sample": {"registered_types": len(types), "data_types": data_types[:6], "cluster_types": cluster_names}})
+        ob["queries"] = it.queries
+    except rsparse.Unsupported as e:
+        ob.update({"verdict": "inconclusive", "message": "encoder met source it cannot encode: %s" % e})
+    return _fin(ob, timer)
+
+
+def token_gate_obligation(prog):
+    """S16.4: RequestServerImpl::fill_token_session (src/grpc/server.rs) marks the cluster token valid only if the ClusterToken
+    header is present and equal to the configured (non-empty) token. Both strings are byte lists of symbolic content and every
+    length 0..=2 (so that byte-wise comparison code is executable); headers present/absent symbolically."""
+    timer = [0.0, 0]
+    ob = {"engine": "smt", "harness": "s16_4_grpc_token_gate", "encodes": ["RequestServerImpl::fill_token_session"], "encodes_files": ["src/grpc/server.rs"],
+          "bound": "header token and configured cluster token: every byte string of length 0..=2; access / authorization / cluster headers present or absent; auth flag symbolic",
+          "queries": 0, "solver_s": 0.0, "distinct": 0}
+    try:
+        fn = prog.methods.get(("RequestServerImpl", "fill_token_session"))
+        if fn is None:
+            raise rsparse.Unsupported("RequestServerImpl::fill_token_session not found")
+        it = rseval.Interp(prog)
+        it.lenient = True
+        it.cur_file.append(prog.item_file.get(id(fn)))
+        enable = z3.Bool("enable_auth")
+        has_access, has_cluster = z3.Bool("has_access_header"), z3.Bool("has_cluster_header")
+        hb = [z3.BitVec("hdr_byte%d" % i, 64) for i in range(2)]
+        cb = [z3.BitVec("cfg_byte%d" % i, 64) for i in range(2)]
+        hlen, clen = z3.BitVec("hdr_len", 64), z3.BitVec("cfg_len", 64)
+        sess = z3.Bool("session_lookup_succeeds")
+        it.fn_models["get_user_session"] = lambda interp, args: Ok(Some(Struct("Session", {}))) if interp.branch(sess) else Ok(NONE)
+        k_access, k_cluster = it.const("ACCESS_TOKEN_HEADER"), it.const("CLUSTER_TOKEN")
+        found = []
+
+        def pick_len(var):
+            for n in (0, 1):
+                if it.branch(var == n):
+                    return n
+            return 2
+
+        def thunk():
+            hl, cl = pick_len(hlen), pick_len(clen)
+            htok, ctok = hb[:hl], cb[:cl]
+            headers = {}
+            if it.branch(has_access):
+                headers[k_access] = [z3.BitVecVal(65, 64)]
+            present = it.branch(has_cluster)
+            if present:
+                headers[k_cluster] = htok
+            payload = Struct("Payload", {"metadata": Some(Struct("Metadata", {"headers": headers}))})
+            meta = Struct("RequestMeta", {"cluster_token_is_valid": False, "token_session": NONE, "connection_id": "c"})
+            me = Struct("RequestServerImpl", {"app": Struct("AppShareData", {"sys_config": Struct("AppSysConfig", {"openapi_enable_auth": enable, "cluster_token": ctok})}),
+                                              "invoker": Uninterp("invoker", [])})
+            it._invoke(fn, [me, payload, meta], self_ty="RequestServerImpl")
+            ok_expected = present and hl == cl and cl > 0
+            eq_bytes = z3.And(*[htok[i] == ctok[i] for i in range(min(hl, cl))]) if min(hl, cl) > 0 else z3.BoolVal(True)
+            return meta["cluster_token_is_valid"], (z3.And(eq_bytes) if ok_expected else z3.BoolVal(False)), (present, hl, cl)
+        it.solver.push()
+        for b in hb + cb:
+            it.solver.add(z3.ULT(b, 256), b != 0)
+        paths = it.explore(thunk)
+        it.solver.pop()
+        s = z3.Solver()
+        for b in hb + cb:
+            s.add(z3.ULT(b, 256), b != 0)
+        nq = 0
+        for pc, r, exc in paths:
+            if exc is not None:
+                raise rsparse.Unsupported("panic: %s" % exc)
+            valid, expected, shape = r
+            s.push()
+            s.add(*pc)
+            s.add(rseval.to_bool(valid), z3.Not(expected))
+            r2 = solve(s, timer)
+            nq += 1
+            if r2 == z3.sat:
+                m = s.model()
+                present, hl, cl = shape
+                hv = [m.eval(x, model_completion=True).as_long() for x in hb[:hl]]
+                cv = [m.eval(x, model_completion=True).as_long() for x in cb[:cl]]
+                ob.update({"verdict": "violation", "tags": ["cluster-token-accepted-although-different"],
+                           "message": "cluster token marked valid although the ClusterToken header (%s) differs from the configured token (bytes %s)"
+                           % ("bytes %s" % hv if present else "absent", cv), "counterexample": {"header_present": present, "header_bytes": hv, "configured_bytes": cv}})
+                s.pop()
+                return _fin(ob, timer)
+            s.pop()
+        # witness: the exact token is accepted somewhere
+        wit = False
+        for pc, r, exc in paths:
+            valid, expected, shape = r
+            s.push()
+            s.add(*pc)
+            s.add(rseval.to_bool(valid))
+            if solve(s, timer) == z3.sat:
+                wit = True
+            s.pop()
+            if wit:
+                break
+        if not wit:
+            ob.update({"verdict": "inconclusive", "message": "witness: no path accepts the exact token (vacuous)"})
+        else:
+            ob.update({"verdict": "discharged", "distinct": nq, "sample": {"paths_explored": len(paths)}})
         ob["queries"] = it.queries
     except rsparse.Unsupported as e:
         ob.update({"verdict": "inconclusive", "message": "encoder met source it cannot encode: %s" % e})
